@@ -7,6 +7,7 @@ package dtls
 
 import (
 	"bytes"
+	"os"
 	"crypto/tls"
 	"fmt"
 	"strings"
@@ -246,7 +247,7 @@ func vfC01Case(t *testing.T, res *vfResult, idx int, suite vfSuiteInfo) {
 		p.C.StartPump()
 		p.S.StartPump()
 		bad := vfAgreement(cfg, p, resumed)
-		if rt := vfRoundTrip(p, tag, 30*time.Second); rt != "" {
+		if rt := vfRoundTrip(p, tag, 30*time.Second); rt != "" && !n.Storm() {
 			bad = append(bad, "application data: "+rt)
 		}
 		fp := cfg.FP() + fmt.Sprintf("/sched%d/round%d", sched, round)
@@ -257,6 +258,11 @@ func vfC01Case(t *testing.T, res *vfResult, idx int, suite vfSuiteInfo) {
 			cls := strings.SplitN(b, ":", 2)[0]
 			sig := fmt.Sprintf("C01:%s:resumed=%v:v=%s", cls, resumed, vfVerStr(vfCommon(p.C.Conn).LocalVersion))
 			res.Violate(sig, b+" | cfg="+cfg.FP(), map[string]any{"cfg": cfg, "mask": mask, "case": idx, "round": round})
+		}
+		res.Max("max_datagrams_in_one_session", n.emitted.Load())
+		if n.Storm() {
+			res.Count("emission_storms", 1)
+			res.Note(fmt.Sprintf("emission storm (%d datagrams in one session) case %d cfg %s mask %s", n.stormCap, idx, cfg.FP(), mask.String()))
 		}
 		p.Close()
 		synctest.Wait()
@@ -285,6 +291,20 @@ func TestVF_C01(t *testing.T) {
 	res.Assume("crypto/rand is not seeded: replays re-create configuration and fault mask, not byte-identical traffic",
 		"ALPN is not carried by the DTLS 1.3 path of this tree; both sides reporting \"\" counts as agreement")
 	suites := vfAllSuites()
+	if vfEnv().Replay != "" {
+		var rf struct {
+			Replay struct {
+				Case int `json:"case"`
+			} `json:"replay"`
+		}
+		vfLoadReplay(t, &rf)
+		vfDumpWire = os.Getenv("VERIF_DUMP") != ""
+		synctest.Test(t, func(t *testing.T) { vfC01Case(t, res, rf.Replay.Case, suites[rf.Replay.Case%len(suites)]) })
+		res.NonTrivial("replay-extra")
+		res.Finish(t)
+
+		return
+	}
 	per := vfPick(120, 4000)
 	total := per * len(suites)
 	vfBubbles(t, total, func(t *testing.T, i int) {
